@@ -3,6 +3,7 @@
    Statements only; the proofs are in Proofs/WriterProofs.v. *)
 From Coq Require Import String.
 Require Import Base Mol Text Molfile V3000 Writer WriterProofs.
+Require ParamsSpec.   (* regenerated source constants still match what the model hard-codes *)
 
 (* 1. line lengths: 79 characters + the newline the writer joins the lines with *)
 Theorem C09_wrap_line_length : forall line : text,
